@@ -324,9 +324,9 @@ namespace sim
     const WorldInfo w = analyse_world(path, g.json);
     // buggify: a seeded non-empty subset of the sites that matter for this file
     unsigned mask = 0;
-    const unsigned candidates = slabs ? ((1u << 1) | (1u << 2) | (1u << 3) | (1u << 4)) : ((1u << 5) | (1u << 6) | (1u << 7) | (1u << 8));
+    const unsigned candidates = slabs ? ((1u << 1) | (1u << 2) | (1u << 3) | (1u << 4)) : ((1u << 5) | (1u << 6) | (1u << 7) | (1u << 8) | (1u << 9));
     while (mask == 0)
-      for (int b = 1; b <= 8; ++b)
+      for (int b = 1; b <= 9; ++b)
         if (((candidates >> b) & 1u) && brng.chance(0.6))
           mask |= (1u << b);
     Op ca;
@@ -384,7 +384,7 @@ namespace sim
         natural_to_query(w, x, y, depth, a.p);
         a.d = depth;
         a.props = base_props;
-        if (rng.chance(0.1))
+        if (rng.chance(slabs ? 0.1 : 0.4))
           a.props.push_back(Prop{{5, 0, 0}});
         a.eq = "p" + std::to_string(i);
         a.note = note;
